@@ -56,6 +56,8 @@ PROPS = {
             ('stdlib::list_get', {'list': [1, 2, 3], 'i': 3}), ('stdlib::list_get', {'list': [1, 2, 3], 'i': -4}), ('stdlib::list_get_mut', {'list': [], 'i': 0}),
             ('stdlib::list_slice', {'list': [1, 2, 3], 'start': None, 'end': None, 'step': 0}),
             ('stdlib::dict_get', {'keys': [1, 2], 'key': 5}), ('stdlib::range', {'a': 0, 'b': 5, 'c': 0}),
+            ('stdlib::dict_get_str', {'key': 'k' * 150 + 'é', 'present': False}), ('stdlib::dict_get_str', {'key': '', 'present': False}),
+            ('stdlib::str_index', {'s': '¿Qué?', 'i': -2}), ('stdlib::str_index', {'s': '¿Qué?', 'i': 5}), ('core::str_char_at', {'s': 'ÿ\uffff', 'i': -1}),
             ('core::str_char_at', {'s': 'abc', 'i': 3}), ('core::str_slice', {'s': 'abc', 'start': 1, 'end': None, 'step': 0}),
         ],
         'not_covered': [
